@@ -227,8 +227,9 @@ def build(tier, seed):
                   "layers hold one gate per qubit with its own parameter row; apply_gate_to_qubits adds one gate per DISTINCT qubit (unordered, duplicated collections), uses each row once, "
                   "keeps existing operations and the input circuit; ancilla registers widen by exactly a and keep the action (symbolic parameter rows)", timeout=600,
                   fallback=vprop.enum_ob("x", [], _gen_colls, _check_gen_coll, "").run))
-    from props import C08ancilla
+    from props import C08ancilla, C08apply
     obs.extend(C08ancilla.build())
+    obs.extend(C08apply.build(vprop.enum_ob("x", [], _gen_colls, _check_gen_coll, "").run))
     obs.append(vprop.enum_ob("C08.generators.enum", [GEN + ":apply_gate_to_qubits"], _gen_colls, _check_gen_coll,
                              "bounded-exhaustive: apply_gate_to_qubits on EVERY sequence of length <= 4 over three qubit indices (all duplicate patterns, adjacent or not, both container "
                              "kinds): one gate per distinct qubit, each parameter row used once, existing operations and input circuit untouched"))
